@@ -21,6 +21,7 @@ func main() {
 	base := users + "paths:\n  p:\n"
 	variants := []struct{ name, next, expect string }{
 		{"same", users + "paths:\n  p:\n", "attached"},
+		{"shadowed-by-new-entry", "", "rejected"}, // special: see below
 		{"hot-reloadable", users + "paths:\n  p:\n    recordPath: /tmp/verif-never/%path/%Y-%m-%d_%H-%M-%S-%f\n", "rejected"},
 		{"recreating", users + "paths:\n  p:\n    overridePublisher: no\n    maxReaders: 3\n", "rejected"},
 		{"not-publisher", users + "paths:\n  p:\n    source: redirect\n    sourceRedirect: rtsp://127.0.0.1:1/x\n", "rejected"},
@@ -31,6 +32,11 @@ func main() {
 	var scn []*vexplore.Scenario
 	for _, v := range variants {
 		sp := pmlib.AuthSpec{Base: base, Next: v.next, Sequential: true, PubUser: "pub", Path: "p", WithReader: true}
+		if v.name == "shadowed-by-new-entry" {
+			// the authorizing entry (all_others) is untouched by the reload, but a new static entry now rules the name
+			sp.Base = users + "paths:\n  all_others:\n"
+			sp.Next = users + "paths:\n  all_others:\n  p:\n    maxReaders: 5\n"
+		}
 		scn = append(scn, &vexplore.Scenario{
 			Name: "seq-" + v.name, Desc: "authorize; reload to '" + v.name + "' fully applied; attach; reader concurrently",
 			Body: pmlib.AuthBody(sp), Check: pmlib.CheckAuth(sp, v.expect), QuickBound: 1, ThoroughBound: 2, Horizon: 20000, Bg: bg,
